@@ -43,6 +43,7 @@ type Sweep struct {
 	Target *ssa.Function
 	Name   string
 	Props  []string
+	Kinds  map[string]bool // obligation kinds generated (nil: all)
 }
 
 type SpecDB struct {
@@ -67,6 +68,7 @@ type SpecDB struct {
 	getters      map[string]bool
 	detFns       map[string]bool
 	guardSubs    map[string]map[int]bool
+	lockHeld     map[string]string // function -> mutex field of its receiver that callers hold
 	stubs        map[string]*ssa.Function
 	assumeAssert map[string]bool
 	dynCalls     map[string]*ssa.Function // "fn#k" -> spec function for the k-th dynamic call in fn
@@ -210,6 +212,84 @@ func buildSpecDB(prog *ssa.Program, pkgs []*packages.Package, allFns map[string]
 		}
 	})
 	return db
+}
+
+// closureEscapes: the function literal an of parent is used other than as the
+// callee of a call / defer inside parent.
+func closureEscapes(parent, an *ssa.Function) bool {
+	for _, b := range parent.Blocks {
+		for _, ins := range b.Instrs {
+			mc, ok := ins.(*ssa.MakeClosure)
+			var v ssa.Value
+			if ok && mc.Fn == ssa.Value(an) {
+				v = mc
+			}
+			if v == nil {
+				continue
+			}
+			refs := v.Referrers()
+			if refs == nil {
+				return true
+			}
+			for _, r := range *refs {
+				switch c := r.(type) {
+				case *ssa.Defer:
+					if c.Call.Value != v {
+						return true
+					}
+				case *ssa.Call:
+					if c.Call.Value != v {
+						return true
+					}
+				case *ssa.DebugRef:
+				default:
+					return true
+				}
+			}
+			return false
+		}
+	}
+	// not created through MakeClosure (no free variables): look for uses of the function value
+	for _, b := range parent.Blocks {
+		for _, ins := range b.Instrs {
+			switch c := ins.(type) {
+			case *ssa.Defer:
+				if c.Call.Value == ssa.Value(an) {
+					continue
+				}
+			case *ssa.Call:
+				if c.Call.Value == ssa.Value(an) {
+					continue
+				}
+			}
+			for _, op := range ins.Operands(nil) {
+				if *op == ssa.Value(an) {
+					if d, ok := ins.(*ssa.Defer); ok && d.Call.Value == ssa.Value(an) {
+						continue
+					}
+					if c, ok := ins.(*ssa.Call); ok && c.Call.Value == ssa.Value(an) {
+						continue
+					}
+					return true
+				}
+			}
+		}
+	}
+	return false
+}
+
+func parseSweepOpts(sw *Sweep, opts []string) {
+	for _, a := range opts {
+		switch {
+		case strings.HasPrefix(a, "props="):
+			sw.Props = strings.Split(strings.TrimPrefix(a, "props="), ",")
+		case strings.HasPrefix(a, "kinds="):
+			sw.Kinds = map[string]bool{}
+			for _, k := range strings.Split(strings.TrimPrefix(a, "kinds="), ",") {
+				sw.Kinds[k] = true
+			}
+		}
+	}
 }
 
 func directives(cg *ast.CommentGroup) [][]string {
@@ -435,12 +515,63 @@ func (db *SpecDB) readFile(prog *ssa.Program, p *packages.Package, spkg *ssa.Pac
 					continue
 				}
 				sw := &Sweep{Target: t, Name: tn}
-				for _, a := range dir[2:] {
-					if strings.HasPrefix(a, "props=") {
-						sw.Props = strings.Split(strings.TrimPrefix(a, "props="), ",")
+				parseSweepOpts(sw, dir[2:])
+				db.sweeps = append(db.sweeps, sw)
+			case "lock-held":
+				// lock-held <function> <mutexField>: the function is only called with
+				// the receiver's mutex held ("hold lock before calling this function")
+				if len(dir) >= 3 {
+					if db.lockHeld == nil {
+						db.lockHeld = map[string]string{}
+					}
+					db.lockHeld[expandName(dir[1])] = dir[2]
+				}
+			case "sweep-type":
+				// sweep-type <TypeName> [props=..] [kinds=lock,nopanic]: every method of
+				// the type declared in this package, and every function literal inside
+				// them, is swept
+				obj := p.Types.Scope().Lookup(dir[1])
+				if obj == nil {
+					db.errf("sweep-type: type %s not found in %s", dir[1], p.PkgPath)
+					continue
+				}
+				var add func(f *ssa.Function)
+				add = func(f *ssa.Function) {
+					if f == nil || len(f.Blocks) == 0 {
+						return
+					}
+					if strings.HasSuffix(prog.Fset.Position(f.Pos()).Filename, "_verif.go") {
+						return // specification code
+					}
+					sw := &Sweep{Target: f, Name: f.String()}
+					parseSweepOpts(sw, dir[2:])
+					db.sweeps = append(db.sweeps, sw)
+					for _, an := range f.AnonFuncs {
+						// function literals that only run inside their parent (called or
+						// deferred there) are covered by the parent's sweep; the others
+						// (go statements, stored or passed callbacks) run on their own
+						if closureEscapes(f, an) {
+							add(an)
+						}
 					}
 				}
-				db.sweeps = append(db.sweeps, sw)
+				for _, t := range []types.Type{obj.Type(), types.NewPointer(obj.Type())} {
+					mset := prog.MethodSets.MethodSet(t)
+					for i := 0; i < mset.Len(); i++ {
+						f := prog.MethodValue(mset.At(i))
+						if f != nil && f.Synthetic == "" && f.Pkg == spkg {
+							dup := false
+							for _, s0 := range db.sweeps {
+								if s0.Target == f {
+									dup = true
+								}
+							}
+							if !dup {
+								add(f)
+							}
+						}
+					}
+				}
 			case "loop":
 				// loop <target> <ordinal> inv=<func> args=a,b | unroll=K
 				if len(dir) < 4 {
